@@ -176,4 +176,12 @@ CHECKS['C18'] = {
     'technique': 'CYK-in-z3 grammar equivalence with property brackets + symbolic annotation keys + file/member differential',
 }
 
+CHECKS['C19'] = {
+    'engine': 'FP+CLI', 'category': 'other', 'design_ref': 'DESIGN.md 1 (FP), 4 (C19)',
+    'text': ('FP: hpl.cli._ast_object_serializer is translated from its current source to z3 Float64 terms and decided for ALL doubles (null exactly for non-finite values): this is what makes the JSON strictly valid. '
+             'The real hpl.cli.main and `python -m hpl` are then executed over a pool of valid/invalid property texts and files with every flag combination; exit status, absence of JSON on failure, strict JSON and field-by-field equality with an independent serialisation are compared.'),
+    'note': 'Weakest use of the solver in the suite (stated in DESIGN.md): after the serializer obligation everything is concrete execution of the CLI on the stated pool.',
+    'technique': 'z3 Float64 encoding of the JSON serializer hook generated from source + concrete CLI runs against an independent serialisation',
+}
+
 NOT_APPLICABLE = {}
